@@ -41,11 +41,13 @@ theorem decode_cut_partial (P : Profile) (o : Opts) (k : HdrKind) (g : Globals) 
     (hlen : L < 4294967296)
     (hfit : ItemsFitD P (List.replicate 16 none) (.defn d0 b0 :: .data d0.localT fs dev :: (done ++ it :: more)))
     (hrun : runItems P (afterHeader k g proto profile L).hdr g (.defn d0 b0 :: .data d0.localT fs dev :: done) (afterHeader k g proto profile L).crc = .ok st1)
-    (hj : j < (serializeItem it).length) :
+    (hj : j < (serializeItem it).length)
+    (R : DecSt → DecSt → Prop := fun _ _ => True)
+    (hR : ∀ limit st, ExitsSat (R st) (oneRecord P limit st) := by intros; exact trivialSat _) :
     ∃ e : ErrExit,
       (decodeSpec P o .full g (u8 k.size :: (hdrTail k proto profile L ++
         (serialize (.defn d0 b0 :: .data d0.localT fs dev :: done) ++ (serializeItem it).take j))) stop).1 =
-        finalize o e.toOutcome ∧ e.st.fileOf = st1.fileOf := by
+        finalize o e.toOutcome ∧ e.st.fileOf = st1.fileOf ∧ R st1 e.st := by
   -- what the item machine did on the complete records
   unfold runItems at hrun
   simp only at hrun
@@ -106,7 +108,7 @@ theorem decode_cut_partial (P : Profile) (o : Opts) (k : HdrKind) (g : Globals) 
           have hD : ∀ fe : Nat, ∃ e : ErrExit,
               (runSpecD L (recordsProg P .full (recState0 P k g proto profile L)) 0
                 { rest := serialize (.defn d0 b0 :: .data d0.localT fs dev :: done) ++ (serializeItem it).take j,
-                  stop := stop, taken := k.size, frameEnd := fe }).1 = .inl e ∧ e.st.fileOf = st1.fileOf := by
+                  stop := stop, taken := k.size, frameEnd := fe }).1 = .inl e ∧ e.st.fileOf = st1.fileOf ∧ R st1 e.st := by
             intro fe
             unfold recordsProg
             rw [run_parseFileIdMsg_ok P L _ d0 b0 hwf0 hg hkn fs dev _ sa sb 0 _ (serialize done ++ (serializeItem it).take j)
@@ -119,7 +121,7 @@ theorem decode_cut_partial (P : Profile) (o : Opts) (k : HdrKind) (g : Globals) 
             rw [← hfuel]
             exact cut_items P L (L - done.length) (fun st => DProg.done st) done it more { sb with file := some f' }
               (0 + (serializeItem (.defn d0 b0)).length + (serializeItem (.data d0.localT fs dev)).length) _ j
-              hfit3 hj rfl (by omega) (by show sb.n = _; rw [hn2, hn1, hn0]) st1 hrun
+              hfit3 hj rfl (by omega) (by show sb.n = _; rw [hn2, hn1, hn0]) st1 hrun R hR
           -- put the pieces together
           unfold decodeSpec
           simp only
